@@ -130,7 +130,72 @@ pub struct Case {
     pub padded: u8,
 }
 
+/// The same claims on the library's own individuals: `EcIndividual`s ordered by their `TestResults`, whose
+/// per-case result vectors have different lengths and shapes while the totals are the keys.
+fn library_individuals(c: &Case) -> Result<(), Fail> {
+    use ec_core::test_results::{Error as ErrRes, Score};
+    let rows: Vec<Vec<i64>> = c
+        .keys
+        .iter()
+        .enumerate()
+        .map(|(i, k)| match i % 3 {
+            0 => vec![*k],
+            1 => vec![k.wrapping_sub(1), 1],
+            _ => vec![0, *k, 0],
+        })
+        .collect();
+    if c.keys.iter().any(|k| k.checked_sub(1).is_none()) || rows.is_empty() {
+        return Ok(());
+    }
+    let n = rows.len();
+    let k = c.k.max(1).min(n);
+    macro_rules! on {
+        ($name:literal, $pop:expr, $best_key:expr, $worst_key:expr, $not_better:expr) => {{
+            let pop = $pop;
+            let mut rng = ScriptRng::new(&c.script, 0xC07E);
+            let key_of = |g: u32| c.keys[g as usize];
+            for (what, want) in [("Best", $best_key), ("Worst", $worst_key)] {
+                let r = guarded(|| if what == "Best" { Best.select(&pop, &mut rng).map(|w| w.genome).map_err(|e| e.to_string()) } else { Worst.select(&pop, &mut rng).map(|w| w.genome).map_err(|e| e.to_string()) });
+                match r {
+                    Err(p) => fail!(format!("{what}/panic:{}", panic_key(&p)), "{what} on {n} {} individuals panicked: {p}", $name),
+                    Ok(Err(e)) => fail!(format!("{what}/spurious-error"), "{what} on {n} {} individuals: {e}", $name),
+                    Ok(Ok(g)) => ensure!(
+                        Some(&key_of(g)) == want,
+                        format!("{what}/not-extremal"),
+                        "{what} over {} individuals with totals {:?} (result vectors of different lengths) returned the individual with total {}",
+                        $name,
+                        c.keys,
+                        key_of(g)
+                    ),
+                }
+            }
+            for size in [n, k] {
+                let t = Tournament::new(NonZeroUsize::new(size).unwrap_or(NonZeroUsize::MIN));
+                match guarded(|| t.select(&pop, &mut rng).map(|w| w.genome).map_err(|e| e.to_string())) {
+                    Err(p) => fail!(format!("Tournament/panic:{}", panic_key(&p)), "tournament of {size} over {n} {} individuals panicked: {p}", $name),
+                    Ok(Err(e)) => fail!("Tournament/spurious-error", "tournament of {size} over {n} {} individuals: {e}", $name),
+                    Ok(Ok(g)) => {
+                        let not_better = (0..n as u32).filter(|o| *o != g && $not_better(key_of(*o), key_of(g))).count();
+                        ensure!(
+                            not_better >= size - 1,
+                            "Tournament/winner-rank",
+                            "the winner of a size-{size} tournament over {} individuals with totals {:?} (result vectors of different lengths) has total {} and is at least as good as only {not_better} others",
+                            $name,
+                            c.keys,
+                            key_of(g)
+                        );
+                    }
+                }
+            }
+        }};
+    }
+    on!("score", crate::props::c06::population::<Score<i64>>(&rows, |r| Score(r.iter().sum())), c.keys.iter().max(), c.keys.iter().min(), |other: i64, winner: i64| other <= winner);
+    on!("error", crate::props::c06::population::<ErrRes<i64>>(&rows, |r| ErrRes(r.iter().sum())), c.keys.iter().min(), c.keys.iter().max(), |other: i64, winner: i64| other >= winner);
+    Ok(())
+}
+
 pub fn oracle(c: &Case, probe: &mut Probe) -> Result<(), Fail> {
+    library_individuals(c)?;
     if c.padded == 0 {
         oracle_on(c, probe, |keys| pop_of(keys))
     } else {
@@ -569,7 +634,7 @@ fn constructor_check(ctx: &mut Ctx) {
 }
 
 pub fn run(ctx: &mut Ctx) {
-    ctx.rule = "invariants: generated populations (0..200 individuals ordered by a key, with ties), all tournament sizes incl. n and n+1, generated random stream; the sampled subset of each tournament is recovered from the ids the individuals' Ord::cmp is asked to compare. laws: for every n <= 7 and k <= n (distinct keys, and a tie-laden variant) seeded draws compared with the uniform law 1/C(n,k) over k-subsets and the winner law obtained by enumerating all k-subsets; for 14 larger configurations (n up to 300, k up to 40) the inclusion rate k/n of every individual, the co-inclusion rate of neighbouring and opposite pairs and the pooled winner-rank law C(r,k-1)/C(n,k); for populations of 65537..300000 (thorough: 2 million) individuals the lowest / highest entrant position and the winner's rank in 16 buckets; the named constructors binary() / of_size::<N>() are the sizes they say. non-trivial = n >= 3 with >= 2 distinct keys and 1 < k < n (invariants); each (statistic, configuration) with 0 < p < 1 (laws)".into();
+    ctx.rule = "invariants: generated populations (0..200 individuals ordered by a key, with ties; also as the library's own EcIndividuals ordered by TestResults whose result vectors have different lengths and the keys as totals, in both polarities), all tournament sizes incl. n and n+1, generated random stream; the sampled subset of each tournament is recovered from the ids the individuals' Ord::cmp is asked to compare. laws: for every n <= 7 and k <= n (distinct keys, and a tie-laden variant) seeded draws compared with the uniform law 1/C(n,k) over k-subsets and the winner law obtained by enumerating all k-subsets; for 14 larger configurations (n up to 300, k up to 40) the inclusion rate k/n of every individual, the co-inclusion rate of neighbouring and opposite pairs and the pooled winner-rank law C(r,k-1)/C(n,k); for populations of 65537..300000 (thorough: 2 million) individuals the lowest / highest entrant position and the winner's rank in 16 buckets; the named constructors binary() / of_size::<N>() are the sizes they say. non-trivial = n >= 3 with >= 2 distinct keys and 1 < k < n (invariants); each (statistic, configuration) with 0 < p < 1 (laws)".into();
     ctx.assumptions.push("on ties any maximal individual is accepted; if an implementation compares more than k individuals the subset law is skipped and only the winner law is used".into());
     let (n_cases, trials) = ctx.tier.pick((400_000u32, 1_000_000u64), (6_000_000, 10_000_000));
     ctx.run_prop("invariants", n_cases, || strategy(200), oracle);
